@@ -14,7 +14,8 @@ B = 32768
 THEOREMS = [
     "Ymq.C20.isqrt_is_floor_sqrt", "Ymq.C20.factor_base_size_ok", "Ymq.C20.fbsizes_keys_increasing",
     "Ymq.C20.select_fb_size_ok", "Ymq.C20.qs_fb_size_ok", "Ymq.C20.mpqs_fb_size_ok", "Ymq.C20.clsgrp_fb_size_ok",
-    "Ymq.C20.siqs_fb_size_ok", "Ymq.C20.siqs_nfactors_ok", "Ymq.C20.siqs_nfactors_fits_fbase",
+    "Ymq.C20.siqs_fb_size_ok", "Ymq.C20.siqs_fb_size_le_cap_fails", "Ymq.C20.siqs_fb_size_cap_witness",
+    "Ymq.C20.siqs_fb_size_le_cap_partial", "Ymq.C20.siqs_nfactors_ok", "Ymq.C20.siqs_nfactors_fits_fbase",
     "Ymq.C20.siqs_a_value_count_ok", "Ymq.C20.siqs_a_tolerance_divisor_ok", "Ymq.C20.siqs_interval_size_ok",
     "Ymq.C20.siqs_large_prime_factor_ok", "Ymq.C20.siqs_double_large_factor_ok", "Ymq.C20.mpqs_interval_size_ok",
     "Ymq.C20.mpqs_large_prime_factor_ok", "Ymq.C20.mpqs_double_large_factor_ok", "Ymq.C20.qs_large_prime_factor_ok",
@@ -26,7 +27,8 @@ THEOREMS = [
     "Ymq.C20.stage2_rows_ok", "Ymq.C20.pm1_rows_ok", "Ymq.C20.stage2_select_total", "Ymq.C20.pm1_select_ok",
     "Ymq.C20.pm1_arms_ok", "Ymq.C20.ecm_arms_ok", "Ymq.C20.ntt_primes_ok", "Ymq.C20.ntt_roots_order",
     "Ymq.C20.mzp_new_ok", "Ymq.C20.mzp_product_ok", "Ymq.C20.convolve_dispatch_total",
-    "Ymq.C20.convolve_dispatch_packing_ok", "Ymq.C20.convolve_dispatch_size_one", "Ymq.C20.convolve_fsize_ok",
+    "Ymq.C20.convolve_dispatch_packing_partial", "Ymq.C20.convolve_dispatch_size_one",
+    "Ymq.C20.convolve_dispatch_packing_fails_size_one", "Ymq.C20.convolve_fsize_ok",
 ]
 
 RULE = ("exhaustive: every translated parameter function on every bit length 0..512 (x both values of every flag, x the "
@@ -123,6 +125,11 @@ def cases(tier, rng, extended=False):
     for b in range(1, top + 1):
         for l in ((0, 1, 5, 10) if tier == "quick" and not extended else (0, 1, 2, 5, 8, 10, 12, 14)):
             yield Case(f"param arith_fft::mzp_w {b} {l}", timeout=120)
+    # convolve_modn really run at the dispatch breakpoints (small sizes): returns iff the model says so
+    for b in (2, 64, 100, 150, 151, 245, 246, 280, 281, 310, 311, 499, 500, 501, 512):
+        for k in range(0, 9 if tier == "quick" and not extended else 13):
+            indomain = b <= 500 and not (k == 0 and b <= 150)
+            yield Case(f"convolve_run {b} {k}", o=indomain, timeout=300)
     # consumer runs (O only): FBase::new with the sizes the parameter functions produce
     for b, size in [(64, 16), (100, 120), (200, 8000), (300, 90000), (512, 500000)] + \
                    ([(393, 557056), (512, 7340032)] if tier != "quick" or extended else []):
@@ -227,6 +234,8 @@ def oracle(case, ans):
             if not (0 < r < p and pow(r, 1 << 32, p) == 1 and pow(r, 1 << 31, p) == p - 1):
                 return f"{p}: listed root does not have order 2^32"
         return None
+    if case.op == "convolve_run":
+        return None if ans == "ok" else "convolve_modn did not return"
     if case.op == "fbase_new":
         ln, mx = (int(x) for x in ans.split(","))
         size = int(a[1])
